@@ -799,6 +799,85 @@ theorem c20_translation_agrees_replicate_mutations (env : Env ν) (d : Nat) (mut
     simp only [Tr.replicate_mutations, mutateList, c20_translation_agrees_mutate]
     cases mutate env k c a b .replication <;> simp [ih]
 
+/-! ## Open findings (the model stays faithful to the code; `_partial` = the clause outside the trigger, `_witness` = a
+concrete counterexample)
+
+### C20-refused-readd-not-logged — clause 2 says EVERY refused attempt is logged; a refused re-add is not -/
+
+/-- **Every refused attempt other than a re-add is logged as unapproved.**  A `mutate` of an existing gene, or a
+    `rollback_mutation` that has an approved mutation to roll back, that reports `False` appends exactly one entry to
+    the genome's log, flagged unapproved, and changes nothing else.
+    -- FULL (false on current tree): the same for `add_gene` of an existing name on a genome with mutations disabled
+    -- (`c20_refused_readd_not_logged_witness`). -/
+theorem c20_every_refused_attempt_logged_partial (env : Env ν) (st : Store ν) (i : Nat) (g : Genome ν) (op : Op ν)
+    (hi : st.genomes[i]? = some g)
+    (hop : (∃ n v, op = .mutate i n v ∧ (findGene g.genes n).isSome = true) ∨
+      (∃ n, op = .rollback i n ∧ (findGene g.genes n).isSome = true ∧ (lastApproved g.log n).isSome = true))
+    (hret : (step env st op).2 = .ret false) :
+    ∃ m : Mut ν, m.approved = false ∧ (step env st op).1.genomes[i]? = some { g with log := g.log ++ [m] } := by
+  rcases hop with ⟨n, v, rfl, hn⟩ | ⟨n, rfl, hn, hl⟩
+  · obtain ⟨og, hf⟩ := Option.isSome_iff_exists.mp hn
+    exact ⟨_, rfl, c20_every_refused_mutation_logged_unapproved env st i n v g og hi hf hret⟩
+  · obtain ⟨og, hf⟩ := Option.isSome_iff_exists.mp hn
+    obtain ⟨m, hm⟩ := Option.isSome_iff_exists.mp hl
+    exact ⟨_, rfl, c20_refused_rollback_logged_unapproved env st i n g og m hi hf hm hret⟩
+
+/-- A refused re-add leaves no trace: `add_gene` of an existing name on a genome with mutations disabled reports
+    `False` and the genome — log included — is literally what it was (genome.py:173-176 returns before anything is
+    recorded).  General statement, then the concrete instance. -/
+theorem c20_refused_readd_not_logged_witness :
+    (∀ (g : Genome Nat) (x : Gene Nat), g.allow = false → (findGene g.genes x.name).isSome = true →
+      addGene g x = (g, false)) ∧
+    (let g : Genome Nat := newGenome false (some 0) false [⟨0, 1, .structural, true, .normal⟩]
+     let st : Store Nat := ⟨[g], 0, 0⟩
+     (step (gateEnv (some .approve)) st (.add 0 ⟨0, 9, .structural, true, .normal⟩)).2 = .ret false ∧
+     (step (gateEnv (some .approve)) st (.add 0 ⟨0, 9, .structural, true, .normal⟩)).1.genomes = [g] ∧ g.log = []) :=
+  ⟨fun _ _ hal hx => addGene_refused hal hx, by decide⟩
+
+/-! ### C20-shared-mutable-value-objects — parent, child, the log and every accessor share the value OBJECTS
+
+Read with `ν := Nat` = object identity (see Model/Genome.lean, "value OBJECTS"), every theorem above is a statement about
+which OBJECT a gene table holds: no API operation replaces the object stored under a gene without authorisation, and no
+API operation has access to the CONTENT of an object (`H`) at all.  What the API does not prevent: the child is built
+from the parent's own objects, `mutate` logs the old object itself, and `get_gene` / `get_value` / `express` / `export`
+return the stored object — so a caller that mutates such an object in place (`poke`) changes what every holder shows. -/
+
+/-- **In-place mutation of an object a genome does not hold changes nothing in it**: its name → value view and what
+    its hash digests are the same before and after.
+    -- FULL (false on current tree): in-place mutation of an object obtained from ANOTHER genome (a child, a parent),
+    -- from the log, or from an accessor never changes a genome's stored values or hash
+    -- (`c20_shared_value_object_witness`). -/
+theorem c20_poke_of_unheld_object_changes_nothing_partial {κ : Type} (H : Nat → κ) (g : Genome Nat) (r : Nat) (c : κ)
+    (h : holds g r = false) :
+    view (poke H r c) g = view H g ∧ canonView (poke H r c) g = canonView H g := by
+  have hne : ∀ p ∈ table g, p.2 ≠ r := by
+    intro p hp hpr
+    obtain ⟨x, hx, rfl⟩ := List.mem_map.mp hp
+    have : holds g r = true := by
+      unfold holds
+      exact List.any_eq_true.mpr ⟨x, hx, by simpa using hpr⟩
+    rw [h] at this; cases this
+  constructor
+  · unfold view
+    apply List.map_congr_left
+    intro p hp
+    simp [poke, hne p hp]
+  · unfold canonView canon
+    apply List.map_congr_left
+    intro p hp
+    simp [poke, hne p ((sortKV_perm (table g)).subset hp)]
+
+/-- **Replication shares the value objects** — concrete: a locked parent (no callback) whose gene 0 holds the object
+    200 is replicated; parent and child hold the SAME object; the caller mutates in place the object it obtained from
+    the CHILD: what the PARENT's hash digests changes, and nothing was logged anywhere. -/
+theorem c20_shared_value_object_witness :
+    let p : Genome Nat := newGenome false none false [⟨0, 200, .structural, true, .normal⟩]
+    let st := (step (gateEnv none) ⟨[p], 0, 0⟩ (.replicate 0 [] true)).1
+    let H : Nat → Nat × Nat := fun r => (r, 0)
+    st.genomes[0]? = some p ∧ (st.genomes[1]?.map fun c => (holds c 200, c.log.length)) = some (true, 0) ∧
+    holds p 200 = true ∧ p.log = [] ∧
+    canonView (poke H 200 (200, 1)) p ≠ canonView H p := by decide
+
 /-! ## The model is what the source DOES: agreement with decision tables evaluated on the real class
 
 `Operon/Gen/GenomeTables.lean` is regenerated on every run by `harness/vf/extract/eval_genome.py`, which RUNS the
